@@ -287,8 +287,21 @@ func StrNIn(name string, n int, lo, hi byte) string {
 	s := []byte(StrN(name, n))
 	for i := range s {
 		if s[i] < lo || s[i] > hi {
-			panic(skip{"StrNIn outside range"})
+			s[i] = lo // value not fixed by the model
 		}
 	}
 	return string(s)
+}
+
+// Text is an arbitrary string like Str; natively it is mapped to text that
+// XML character data and header values can carry (bytes outside printable
+// ASCII become letters), so that solver models survive the real wire.
+func Text(name string) string {
+	b := []byte(Str(name))
+	for i, c := range b {
+		if c < 0x20 || c > 0x7e {
+			b[i] = 'A' + c%26
+		}
+	}
+	return string(b)
 }
